@@ -180,15 +180,47 @@ func runC02(tier string, seed uint64, rep *Report) {
 	}
 	g := &c02gen{r: NewRng(seed), hist: map[string]int{}}
 	ctx := context.Background()
-	for i := 0; i < n; i++ {
+	// fixed histories that run first: one per mechanism a seeded change has used so far (kept so that a change of the random
+	// stream cannot lose them)
+	K := Kw
+	hmap := func(kv ...types.MalType) types.MalType {
+		m := map[string]types.MalType{}
+		for i := 0; i+1 < len(kv); i += 2 {
+			m[kv[i].(string)] = kv[i+1]
+		}
+		return types.HashMap{Val: m}
+	}
+	fn1 := func(body types.MalType) types.MalType { return Call("fn", V(S("x")), body) }
+	corpus := [][]types.MalType{
+		{V(0, 1, 2), Call("conj", reg(0), 3), Call("conj", reg(0), 4), Call("conj", reg(1), 5), Call("concat", reg(0), reg(1))},
+		{Call("vec", Call("range", 0, 5)), Call("subvec", reg(0), 1, 3), Call("conj", reg(1), 9), Call("conj", reg(1), 8)},
+		{hmap(K("a"), 1), hmap(K("a"), 2, K("b"), 3, K("c"), 4), Call("merge", reg(0), reg(1)), Call("merge", reg(1), reg(0))},
+		{hmap(K("a"), 1, K("b"), V(1, 2)), Call("assoc-in", reg(0), V(K("zz"), K("x")), 1), Call("assoc-in", reg(0), V(K("zz"), K("y")), 2), Call("assoc-in", reg(0), V(K("b"), 0), 7)},
+		{V(1, 2, 3), Call("map", Call("fn", V(S("&"), S("xs")), S("xs")), reg(0))},
+		{V(V(1, 2), V(3, 4)), Call("update-in", reg(0), V(0, 1), fn1(9)), Call("update-in", reg(0), V(1, 0), fn1(8))},
+		{Call("hash-set"), Call("conj", reg(0), K("a")), Call("conj", reg(0), K("b")), types.Set{Val: map[string]struct{}{}}, Call("conj", reg(3), K("c"))},
+		{hmap(K("a"), 1, K("b"), 2), Call("rename-keys", reg(0), hmap(K("a"), K("c"))), Call("vector", reg(0), reg(1))},
+		{Q(Call("do", 1, Call("cond", false, K("no"), true, K("yes")))), Call("eval", reg(0)), Call("eval", reg(0))},
+		{hmap(K("a"), 1), Call("dissoc", reg(0), K("zz"), K("a")), Call("assoc", reg(0), K("b"), 2), Call("dissoc", reg(2), K("a"))},
+	}
+	for i := 0; i < n+len(corpus); i++ {
 		w, _ := NewWorld()
 		steps := 3 + g.r.Intn(maxLen-2)
+		if i < len(corpus) {
+			steps = len(corpus[i])
+			g.hist["corpus-history"]++
+		}
 		var forms []types.MalType
 		var snaps []string
 		uses := map[string]int{}
 		violated := false
 		for k := 0; k < steps; k++ {
-			e := g.step(k)
+			var e types.MalType
+			if i < len(corpus) {
+				e = corpus[i][k]
+			} else {
+				e = g.step(k)
+			}
 			for _, m := range strings.Fields(Show(e)) {
 				m = strings.Trim(m, "()[]{}")
 				if strings.HasPrefix(m, "r") && len(m) <= 3 {
